@@ -110,14 +110,19 @@ def run(chk):
     af = vb.func("alias")
     ctor = next((c for c in calls_in(af) if dotted(c.func) == "Alias"), None)
     um = kwarg(ctor, "uuid_map") if ctor is not None else None
+    fresh = keep = None
+    if isinstance(um, ast.IfExp):
+        t = um.test
+        if norm(t) == "keep_col_refs":
+            keep, fresh = um.body, um.orelse
+        elif norm(t) == "not keep_col_refs":
+            fresh, keep = um.body, um.orelse
     good = (
-        isinstance(um, ast.IfExp)
-        and norm(um.test) == "not keep_col_refs"
-        and isinstance(um.body, ast.DictComp)
-        and norm(um.body.generators[0].iter) in ("table._cache.cols.keys()", "table._cache.cols")
-        and "uuid.uuid1()" in norm(um.body.value)
-        and isinstance(um.orelse, ast.Constant)
-        and um.orelse.value is None
+        isinstance(fresh, ast.DictComp)
+        and norm(fresh.generators[0].iter) in ("table._cache.cols.keys()", "table._cache.cols")
+        and "uuid.uuid1()" in norm(fresh.value)
+        and isinstance(keep, ast.Constant)
+        and keep.value is None
     )
     chk.ob("R4", vb, af, "alias: uuid_map = {uid: uuid1() for uid in all columns in scope} unless keep_col_refs", good,
            "alias() does not give every column in scope (hidden ones included) a fresh identity, or ignores keep_col_refs")  # fmt: skip
@@ -179,7 +184,7 @@ def run(chk):
                 consumers.append((sub, dom, guarded))
     need = {d for _, d, g in consumers if not g and d}
     chk.floor("R6", "consumer subscripts of uuid_map", len(consumers), 4)
-    producers = [("alias", af, um.body.generators[0].iter if isinstance(um, ast.IfExp) and isinstance(um.body, ast.DictComp) else None)]
+    producers = [("alias", af, fresh.generators[0].iter if isinstance(fresh, ast.DictComp) else None)]
     tctor = next((c for c in calls_in(tr) if dotted(c.func) == "Alias"), None)
     tum = kwarg(tctor, "uuid_map") if tctor is not None else None
     producers.append(("transfer_col_references", tr, tum.generators[0].iter if isinstance(tum, ast.DictComp) else None))
